@@ -844,6 +844,21 @@ class Discharger:
             return True
         if t[0] == 'lit' and isinstance(t[1], int):
             return False
+        if t[0] == 'ite':
+            return all(self.boundary_ok(And(pc, c_), base, l_, w) for c_, l_ in term_cases(t) if sat(And(pc, c_)) is not None)
+        # an offset handed out by base.char_indices() (`.nth(k)`, `.next()`, `.find(..)`, loop element): a boundary below len
+        x = t
+        if x[0] in ('field', 'proj') and str(x[2] if x[0] == 'field' else x[-1]) == '0':
+            x = x[1]
+            if x[0] == 'some_of':
+                x = x[1]
+            if x[0] == 'elem':
+                x = x[1]
+            for _ in range(3):
+                if x[0] == 'call' and x[1].split('::')[-1] in ('nth', 'next', 'last', 'find', 'skip', 'peekable', 'rev', 'nth_back') and len(x) >= 3:
+                    x = x[2]
+            if x[0] == 'call' and x[1].split('::')[-1] == 'char_indices' and x[2] == base:
+                return True
         # result of find(base, ascii) : boundary
         if t[0] in ('some_of',) and t[1][0] == 'call' and t[1][1].endswith('::find') and t[1][2] == base:
             return True
